@@ -43,7 +43,9 @@ EXTRAS = [[], [], [], [], ["SYNC"], ["BLANK", "WHEN", "ZERO"], ["JUSTIFIED", "RI
 # not followed by white space, separators inside a literal (a period FOLLOWED by a blank inside a literal ends the sentence early:
 # finding, not generated here)
 VALUES = ["'A'", "'AB'", "ZERO", "SPACES", "12", "'X Y'", '"Q"', "'YES'", '"IT\'S"', "'SAY \"HI\"'", "'O''M'", '"A.B"', "'N.A.'",
-          "'1,5'", "'X;Y'", '"O\'NEIL"']
+          "'1,5'", "'X;Y'", '"O\'NEIL"',
+          # what other dialects and tools read as the start of a comment or as an operator is plain text inside a literal
+          "'*>'", "'<*>'", "'A*>B'", "'*'", "'/'", "'#'", "'--'", "'$%&'", "'+1'", "'A-B'", '"*>"']
 
 
 def node(level, name=None, **kw):
